@@ -44,6 +44,15 @@ func runC17(e *Env) {
 	id := 0
 	for i := 0; i < nOps; i++ {
 		o := &c17Op{Kind: e.P(3)}
+		if e.P(12) == 11 {
+			// a vector of empty slices: nothing to write, but earlier buffered bytes must still be flushed later
+			o.Kind = 1
+			for j, k := 0, 2+e.P(2); j < k; j++ {
+				o.Data = append(o.Data, []byte{})
+			}
+			ops = append(ops, o)
+			continue
+		}
 		switch o.Kind {
 		case 0:
 			id++
@@ -59,11 +68,14 @@ func runC17(e *Env) {
 	}
 	// inbound direction
 	var inbound []byte
-	nIn := e.P(5)
+	nIn := e.P(10)
 	var inChunks [][]byte
 	for i := 0; i < nIn; i++ {
 		id++
 		c := fillPayload(id, e.PSize(c17Sizes, 6000))
+		if len(c) == 0 {
+			c = fillPayload(id, 1)
+		}
 		inChunks = append(inChunks, c)
 		inbound = append(inbound, c...)
 	}
